@@ -193,7 +193,8 @@ class DiscWorld:
             if inst is None or now - inst["t_last"] > 30.0:
                 inst = {"t0": now, "fate": "ok", "n": 0}
                 if now <= self.window:
-                    inst["fate"] = self.ch.choose([(("ok",), 0), (("lose_tx1",), 1), (("lose_rp1",), 1), (("lose_cmd",), 1), (("lose_rps",), 1)])[0]
+                    kinds = self.params.get("fates", ("lose_tx1", "lose_rp1", "lose_cmd", "lose_rps"))
+                    inst["fate"] = self.ch.choose([(("ok",), 0)] + [((k,), 1) for k in kinds])[0]
                     if inst["fate"] != "ok":
                         self.fates.append((round(now, 2), f[7], inst["fate"]))
                 self.inst[frame] = inst
@@ -344,7 +345,7 @@ def fault_scenarios(quick: bool) -> list[tuple[dict, int]]:
     if not quick:
         sc += [({"cfg": c, "horizon": H25, "fault_window": 60.0, "checkpoints": (10.0, 60.0, 3600.0)}, 2) for c in base[:1] + base[4:]]
         # a loss in the second round too: the third round (48 h) must fill it in
-        sc += [({"cfg": base[0], "horizon": 49 * 3600.0 + 600, "fault_window": 25 * 3600.0, "checkpoints": (10.0, 60.0, 3600.0, H25)}, 2)]
+        sc += [({"cfg": base[0], "horizon": 49 * 3600.0 + 600, "fault_window": 25 * 3600.0, "fates": ("lose_cmd", "lose_rps"), "checkpoints": (10.0, 60.0, 3600.0, H25)}, 2)]
     return sc
 
 
@@ -356,8 +357,11 @@ def run(ctx) -> None:
     csize = max(1, len(cfgs) // (n * 8))
     chunks = [(cfgs[i : i + csize], 300.0) for i in range(0, len(cfgs), csize)]
     fsc = fault_scenarios(ctx.quick)
-    nsh = 6
-    ftasks = [(p, D, 7, ctx.seed, (k, nsh)) for p, D in fsc for k in range(nsh)]
+    ftasks = []
+    for p, D in fsc:
+        nsh = 6 if D == 1 else 32
+        ftasks += [(p, D, 7, ctx.seed, (k, nsh)) for k in range(nsh)]
+    ftasks.sort(key=lambda t: -t[1])
     total = X.Summary()
     finals = set()
     nviol = 0
